@@ -162,6 +162,11 @@ func genStdSession(rs uint64, prop string, o stdOpts) *Session {
 				{Name: "dest", Contains: "destination filename?", Write: ans, Once: true},
 				{Name: "done", Contains: "copied ok", Complete: true},
 			}
+			if o.Timeouts && r.IntN(2) == 0 {
+				// the stage after the first callback has its own timeout, shorter or longer than
+				// the operation's
+				op.Callbacks[0].NextTimeUS = pick(r, sc.TimeoutOpsUS/4, sc.TimeoutOpsUS/4, sc.TimeoutOpsUS*3)
+			}
 		}
 		if o.Timeouts && op.Kind != "getprompt" && op.Kind != "acquire" {
 			switch r.IntN(6) {
@@ -377,6 +382,15 @@ func runC05(env *Env, s Scenario) {
 		}
 		dur := rec.End - rec.Start
 		effLo, effHi := eff, eff
+		for ci := range op.Callbacks {
+			// a callback that ran and names a timeout for the stage after it: that stage (the one
+			// the stall is in, the callback being the last that ran) is entitled to exactly it
+			cb := &op.Callbacks[ci]
+			if cb.NextTimeUS > 0 && len(rec.CbFired) > 0 && strings.HasPrefix(rec.CbFired[len(rec.CbFired)-1], cb.Name+"|") {
+				effLo, effHi = oddTimeout(Micro(cb.NextTimeUS)), oddTimeout(Micro(cb.NextTimeUS))
+				env.Probe("stall-in-a-stage-with-its-own-timeout")
+			}
+		}
 		if strings.HasPrefix(op.Kind, "net") {
 			// the implicit privilege change is its own blocking operation and takes no
 			// per-operation timeout: its steps are entitled to the connection-wide value
